@@ -47,6 +47,14 @@ bool consume(Token **rest, Token *tok, char *str) {
   return false;
 }
 static Type verif_int = { TY_INT, 4, 4 };
+// type.c pieces eval_const_expr refers to (never reached here; definitions so that the native replay links)
+static Type verif_long = {.kind = TY_LONG, .size = 8, .align = 8};
+static Type verif_ulong = {.kind = TY_LONG, .size = 8, .align = 8, .is_unsigned = true};
+Type *ty_int = &verif_int, *ty_long = &verif_long, *ty_ulong = &verif_ulong;
+bool is_integer(Type *ty) {
+  TypeKind k = ty->kind;
+  return k == TY_BOOL || k == TY_CHAR || k == TY_SHORT || k == TY_INT || k == TY_LONG || k == TY_ENUM;
+}
 void convert_pp_tokens(Token *tok) {
   for (Token *t = tok; t->kind != TK_EOF; t = t->next)
     if (t->kind == TK_PP_NUM) { t->kind = TK_NUM; t->ty = &verif_int; }
